@@ -139,6 +139,39 @@ while true do
   pcall(table.sort, t, function(a, b) $WORK; return a < b end)
   emit("sorted")
 end`},
+	{"close-handler-loops-in-dying-coroutine", closers + `
+local co = coroutine.create(function()
+  local c <close> = setmetatable({}, {__close = function() emit("handler"); while true do $WORK end end})
+  for i = 1, 30 do $WORK end
+  error("dies")
+end)
+emit("resume", coroutine.resume(co))
+emit("after resume")
+while true do $WORK end`},
+	{"close-handler-loops-on-coroutine-close", closers + `
+local co = coroutine.create(function()
+  local c <close> = setmetatable({}, {__close = function() emit("handler"); while true do $WORK end end})
+  coroutine.yield(1)
+end)
+emit("resume", coroutine.resume(co))
+emit("close", coroutine.close(co))
+emit("after close")
+while true do $WORK end`},
+	{"close-handler-loops-in-wrap", closers + `
+local w = coroutine.wrap(function()
+  local c <close> = setmetatable({}, {__close = function() emit("handler"); while true do $WORK end end})
+  return 1
+end)
+emit("call", pcall(w))
+emit("after call")
+while true do $WORK end`},
+	{"close-handler-loops-in-pcall", closers + `
+emit("pcall", pcall(function()
+  local c <close> = setmetatable({}, {__close = function() emit("handler"); while true do $WORK end end})
+  error("x")
+end))
+emit("after pcall")
+while true do $WORK end`},
 	{"gsub-callback", closers + `
 while true do
   pcall(string.gsub, ("x"):rep(200), "x", function(c) $WORK; return c end)
@@ -184,6 +217,23 @@ var Amplifiers = []struct{ Name, Src string }{
 	{"concat-loop", `local s = "" for i = 1, math.min($N, 100000000) do s = s .. "x" end return #s`},
 	{"tostring-loop", `local t = {} for i = 1, math.min($N, 100000000) do t[i] = tostring(i) end return #t`},
 	{"table.remove-loop", `local t = {} for i = 1, math.min($N, 3000) do t[i] = i end for i = 1, #t do table.remove(t, 1) end return #t`},
+	// results whose size is the PRODUCT of two program-chosen sizes: one long value referred to many times
+	{"gsub-repl-whole-match-refs", `local s = ("x"):rep(math.min($N, 20000)) return #(s:gsub(".+", ("%0"):rep(math.min($N, 2000))))`},
+	{"gsub-repl-capture-refs", `local s = ("x"):rep(math.min($N, 20000)) return #(s:gsub("(.+)", ("%1"):rep(math.min($N, 2000))))`},
+	{"gsub-repl-implicit-capture", `local s = ("x"):rep(math.min($N, 20000)) return #(s:gsub(".+", ("%1-"):rep(math.min($N, 2000))))`},
+	{"gsub-table-repl", `local s = ("ab"):rep(math.min($N, 3000)) local big = ("y"):rep(math.min($N, 20000)) return #(s:gsub("a", {a = big}))`},
+	{"gsub-function-repl", `local s = ("ab"):rep(math.min($N, 3000)) local big = ("y"):rep(math.min($N, 20000)) return #(s:gsub("a", function() return big end))`},
+	{"format-many-long-strings", `local s = ("x"):rep(math.min($N, 20000)) local n = math.min($N, 2000) local t = {} for i = 1, n do t[i] = s end return #string.format(("%s"):rep(n), table.unpack(t))`},
+	{"format-q-long", `local s = ("\n"):rep(math.min($N, 5000000)) return #string.format("%q", s)`},
+	{"concat-same-long-string", `local s = ("x"):rep(math.min($N, 20000)) local t = {} for i = 1, math.min($N, 2000) do t[i] = s end return #table.concat(t, s)`},
+	{"rep-of-rep", `return #(("x"):rep(math.min($N, 20000)):rep(math.min($N, 2000), ("y"):rep(math.min($N, 1000))))`},
+	{"concat-operator-doubling", `local s = ("x"):rep(1000) for i = 1, math.min($N, 40) do s = s .. s end return #s`},
+	{"upper-lower-reverse-chain", `local s = ("x"):rep(math.min($N, 30000000)) return #(s:upper():lower():reverse())`},
+	{"pack-many-strings", `local s = ("x"):rep(math.min($N, 20000)) local n = math.min($N, 200) local t = {} for i = 1, n do t[i] = s end return #string.pack(("s4"):rep(n), table.unpack(t))`},
+	{"unpack-many-strings", `local n = math.min($N, 100000) local p = string.pack("s4", ("x"):rep(1000)) return select("#", string.unpack(("s4"):rep(math.min(n, 200)), p:rep(math.min(n, 200))))`},
+	{"utf8.char-many", `local t = {} for i = 1, math.min($N, 200) do t[i] = 0x10FFFF end local s = utf8.char(table.unpack(t)) return #s:rep(math.min($N, 100000))`},
+	{"tostring-table-keys", `local t = {} for i = 1, math.min($N, 2000000) do t["k" .. i] = i end return 1`},
+	{"string.byte-to-table", `local s = ("x"):rep(math.min($N, 200)) local t = {} for i = 1, math.min($N, 100000) do t[i] = {s:byte(1, -1)} end return #t`},
 }
 
 // Sizes are the values substituted for $N.
